@@ -825,6 +825,7 @@ func main() {
 	c.Rule += " Interleave part: two XRs reconciled by ONE reconciler, the first parked before each of its API calls while the second completes; composed resources, references and conditions must equal those of the sequential run. Shapes also include desired names whose apiVersion changes between phases (kind kept) and P&T Compositions that lose and regain named templates between phases (new revision, the XR follows), with the same fault enumeration."
 	c.Rule += " " + "A P&T base template may already carry the composition-resource-name annotation of another template."
 	c.Rule += " " + "A pipeline scenario with six resources that never become ready; four further reconciles after the first quiet one of every phase must stay quiet; a P&T scenario whose Required patch source is set, removed and set again."
+	c.Rule += " " + "Same-named kinds of which two are dropped and one returns; a still-desired composed resource deleted by the user while a provider finalizer holds it (no replacement next to it)."
 	c.Assumptions = []string{"sim implements the apiserver rules listed in DESIGN.md 2.2 (SSA through k8s managedfields library)", "functions are deterministic programs of (request, phase)", "one XR; in 'provider' scenarios a provider actor finalizes composed resources one step after they start terminating"}
 	c.Floor = 200
 
